@@ -134,16 +134,38 @@ def _walk(e):
 
 
 def build(doc):
-    """doc -> raw (pool strings, resource ids, chunk events with pool indices)."""
+    """doc -> raw (pool strings, resource ids, chunk events with pool indices).
+
+    doc["poolorder"]: "first-use" (default) | "reversed" | "sorted" - order of the pool entries that are not bound to the
+    resource map (aapt and aapt2 order their pools differently; indices are an input dimension of their own)."""
+    order = doc.get("poolorder") or "first-use"
+    if order == "first-use":
+        return _build(doc, None)
+    first = _build(doc, None)
+    nmap = len(first["resids"])
+    keys = first["_keys"]
+    rest = keys[nmap:]
+    rest = rest[::-1] if order == "reversed" else sorted(rest, key=lambda k: (k[1], repr(k)))
+    if order not in ("reversed", "sorted"):
+        raise ValueError("unknown poolorder %r" % (order,))
+    return _build(doc, keys[:nmap] + rest)
+
+
+def _build(doc, preset):
     pool = _Pool()
+    if preset:
+        for k in preset:
+            pool.add(k[1], k)
     resids = []
     use_map = bool(doc.get("resmap"))
+    seen_r = set()
     if use_map:
         # resource-mapped attribute names come first, in document order, one entry per (name, rid)
         for e in _walk(doc["root"]):
             for a in e.get("attrs", ()):
                 rid = a.get("rid")
-                if rid is not None and ("r", a["name"], rid) not in pool.index:
+                if rid is not None and ("r", a["name"], rid) not in seen_r:
+                    seen_r.add(("r", a["name"], rid))
                     pool.add(a["name"], ("r", a["name"], rid))
                     resids.append(rid)
     events = []
@@ -191,8 +213,9 @@ def build(doc):
 
     emit(doc["root"])
     utf8 = bool(doc.get("utf8"))
+    keys = sorted(pool.index, key=pool.index.get)
     return {"utf8": utf8, "flags": UTF8_FLAG if utf8 else 0, "strings": pool.strings, "resids": resids,
-            "events": events}
+            "events": events, "_keys": keys}
 
 
 # ------------------------------------------------------------------------------------------------ raw -> bytes
